@@ -358,6 +358,185 @@ def c14_case(param):
     return res
 
 
+
+# --------------------------------------------------------------------------- C27
+
+def c27_harness_case(param):
+    from .. import refs
+    seed, n = param
+    res = CaseResult()
+    rc, out, err = run_harness("asan", "h_intround", [seed, n])
+    site = sanitizer_site(err)
+    if site:
+        res.viol.append(Violation("sanitizer-report", site, "sanitizer report in h_intround %s %s:\n%s" % (seed, n, err[-1500:]),
+                                  {"seed": seed, "n": n, "prop": "C27", "part": "harness"}))
+        return res
+    if "DONE" not in out:
+        res.error = "h_intround did not finish (rc=%s): %s" % (rc, err[-500:])
+        return res
+    decls, pairs, seenm = [], [], set()
+    for line in out.split("\n"):
+        if line.startswith("DECL "):
+            decls.append(line[5:])
+        elif line.startswith("P "):
+            f = line[2:].split(" | ")
+            if len(f) == 3:
+                pairs.append((f[1], f[2], f[0]))
+        elif line.startswith("STAT "):
+            _, k, v = line.split()
+            res.inc(k, int(v))
+            if k.startswith("const_"):
+                res.evals += int(v)
+                res.dkeys.append("const:" + k)
+        elif line.startswith("M "):
+            f = [x.strip() for x in line[2:].split("|")]
+            if f[0] not in seenm:
+                seenm.add(f[0])
+                res.viol.append(Violation("constant-%s-wrong" % f[0], "neg-divisor" if f[2].startswith("-") else "pos-divisor",
+                                          "mk%s on constants %s and %s: %s, Euclidean definition (GMP): %s" % (
+                                              "IntDiv" if f[0] == "div" else "Mod", f[1], f[2], f[3], f[4]),
+                                          {"seed": seed, "n": n, "prop": "C27", "part": "harness"}))
+        elif line.startswith("X "):
+            f = line[2:].split(" | ")
+            res.viol.append(Violation("constructor-exception", top_op(f[0]), "constructor threw on integer input: %s" % line[2:300],
+                                      {"seed": seed, "n": n, "prop": "C27", "part": "harness"}))
+    verdicts = z3_batch(decls, [(a, b) for a, b, _ in pairs])
+    if len(verdicts) != len(pairs):
+        res.error = "z3 batch returned %d verdicts for %d pairs: %s" % (len(verdicts), len(pairs), verdicts[:3])
+        return res
+    seen = set()
+    for (a, b, srt), v in zip(pairs, verdicts):
+        res.evals += 1
+        op = top_op(a)
+        if v == "unsat":
+            res.inc("equivalent_" + op)
+            if a != b:
+                res.dkeys.append(h(a))
+        elif v == "sat":
+            text = "(set-logic ALL)\n" + "\n".join(decls) + "\n(assert (not (= %s %s)))\n(check-sat)\n" % (a, b)
+            if refs.cvc5(text) == "sat":
+                if op not in seen:
+                    seen.add(op)
+                    res.viol.append(Violation("integer-atom-not-equivalent", op,
+                                              "integer normalisation changed the meaning (z3 and cvc5 find a counter-model)\n"
+                                              "intended: %s\nreturned: %s" % (a, b),
+                                              {"intended": a, "returned": b, "decls": decls, "seed": seed, "n": n, "prop": "C27", "part": "harness"}))
+            else:
+                res.inconclusive += 1
+        else:
+            res.inconclusive += 1
+    return res
+
+
+C27_BIG = [2**31 - 1, 2**31, 2**32, 2**32 + 1, 2**53 + 1, 2**63 - 1, 2**63, 2**64, 10**30 + 7, 46341, 3037000500]
+
+
+def c27_window(rng):
+    """Integer window  lo (<|<=) a*x [+ b*y] (<|<=) hi  with its exact verdict (python integers)."""
+    a = rng.choice([1, 2, 3, 4, 5, 6, 7, 10, 12, -1, -2, -3, -5, -7] + ([rng.choice(C27_BIG)] if rng.random() < 0.15 else []))
+    if rng.random() < 0.5:
+        a = -a if rng.random() < 0.3 else a
+    centre = rng.choice([0, 1, -1, 5, -5, 17, -23, 100] + [s * v for v in C27_BIG for s in (1, -1)])
+    centre += rng.randint(-3, 3)
+    width = rng.choice([0, 1, 1, 2, 2, 3, abs(a) - 1, abs(a), abs(a) + 1])
+    lo, hi = centre, centre + max(width, 0)
+    sl, sh = rng.random() < 0.5, rng.random() < 0.5
+    ilo = lo + 1 if sl else lo
+    ihi = hi - 1 if sh else hi
+    # exists integer x with ilo <= a*x <= ihi  (for a < 0: -ihi <= (-a)*x <= -ilo);  ceil(n/b) = -((-n)//b)
+    if a > 0:
+        xlo, xhi = -((-ilo) // a), ihi // a
+    else:
+        b = -a
+        xlo, xhi = -(ihi // b), (-ilo) // b
+    sat = xlo <= xhi
+    return a, lo, hi, sl, sh, sat
+
+
+def c27_num(v):
+    return str(v) if v >= 0 else "(- %d)" % -v
+
+
+def c27_script_case(param):
+    import random
+    seed, n = param
+    rng = random.Random(seed)
+    res = CaseResult()
+    for it in range(n):
+        a, lo, hi, sl, sh, sat = c27_window(rng)
+        form = rng.choice(["lia", "lia", "lia-neg", "idl"]) if abs(a) == 1 else rng.choice(["lia", "lia-neg", "lia-split"])
+        logic = "QF_IDL" if form == "idl" else rng.choice(["QF_LIA", "QF_LIA", "QF_UFLIA", "QF_ALIA"])
+        if form == "idl":
+            t = "(- x y)" if a == 1 else "(- y x)"
+        elif form == "lia-split" and abs(a) > 1:
+            k = rng.randint(1, abs(a) - 1) * (1 if a > 0 else -1)
+            t = "(+ (* %s x) (* %s x))" % (c27_num(k), c27_num(a - k))
+        else:
+            t = "(* %s x)" % c27_num(a) if a != 1 else "x"
+        lower = "(%s %s %s)" % ("<" if sl else "<=", c27_num(lo), t)
+        upper = "(%s %s %s)" % ("<" if sh else "<=", t, c27_num(hi))
+        if form == "lia-neg":
+            lower = "(not (%s %s %s))" % (">=" if sl else ">", c27_num(lo), t)
+            upper = "(not (%s %s %s))" % (">=" if sh else ">", t, c27_num(hi))
+        txt = "(set-option :produce-models true)\n(set-logic %s)\n(declare-fun x () Int)\n(declare-fun y () Int)\n(assert %s)\n(assert %s)\n(check-sat)\n" % (logic, lower, upper)
+        if sat:
+            txt += "(get-value (x y))\n"
+        run = osmt.run_opensmt(txt, flavour="asan", cpu_s=20)
+        res.evals += 1
+        first = run.out.strip().split("\n")[0] if run.out.strip() else ""
+        w = {"script": txt, "expected": "sat" if sat else "unsat", "prop": "C27", "part": "script"}
+        site = sanitizer_site(run.err)
+        if site:
+            res.viol.append(Violation("sanitizer-report", site, "sanitizer report on\n%s\n%s" % (txt, run.err[-1200:]), w))
+            continue
+        if run.timeout:
+            res.inconclusive += 1
+            continue
+        if first not in ("sat", "unsat"):
+            if "(error" in run.out:
+                res.inc("refused_" + form)        # e.g. constants beyond the difference-logic range: allowed, not a wrong value
+                continue
+            res.viol.append(Violation("no-answer", form, "no answer on\n%s\n%s" % (txt, (run.out + run.err)[-400:]), w))
+            continue
+        big = "big" if max(abs(lo), abs(hi), abs(a)) >= 2**31 else "small"
+        if first != w["expected"]:
+            res.viol.append(Violation("integer-window-wrong-%s" % first, "%s:%s" % (form, big),
+                                      "exact arithmetic says %s (window %s%s, %s%s for %d*x)\n%s" % (
+                                          w["expected"], "(" if sl else "[", lo, hi, ")" if sh else "]", a, txt), w))
+            continue
+        if sat:
+            m = re.search(r"\(x\s+(\(-\s+\d+\)|\d+)\)\s*\(y\s+(\(-\s+\d+\)|\d+)\)", run.out)
+            if not m:
+                res.viol.append(Violation("value-malformed", form, "get-value output not integers: %s\n%s" % (run.out[:300], txt), w))
+                continue
+            val = lambda g: -int(re.sub(r"\D", "", g)) if g.startswith("(") else int(g)
+            x, y = val(m.group(1)), val(m.group(2))
+            v = (x - y) if (form == "idl" and a == 1) else ((y - x) if form == "idl" else a * x)
+            okl = lo < v if sl else lo <= v
+            okh = v < hi if sh else v <= hi
+            if not (okl and okh):
+                res.viol.append(Violation("integer-model-outside-window", "%s:%s" % (form, big),
+                                          "x=%d y=%d gives %d outside the window\n%s" % (x, y, v, txt), w))
+                continue
+        res.inc("windows_%s_%s" % (form, "sat" if sat else "unsat"))
+        res.dkeys.append(h(txt))
+    return res
+
+
+def c27_replay(w):
+    if w.get("part") == "script":
+        import random
+        txt = w["script"]
+        run = osmt.run_opensmt(txt, flavour="asan", cpu_s=20)
+        first = run.out.strip().split("\n")[0] if run.out.strip() else ""
+        if sanitizer_site(run.err):
+            return [Violation("sanitizer-report", sanitizer_site(run.err), "replayed", w)]
+        if first in ("sat", "unsat") and first != w["expected"]:
+            return [Violation("integer-window-wrong-%s" % first, "replay", "replayed: expected %s" % w["expected"], w)]
+        return []
+    return c27_harness_case((w["seed"], w["n"])).viol
+
+
 def c28_case(param):
     seed, n, logic = param
     res = CaseResult()
@@ -435,6 +614,20 @@ def main(prop, tier):
         params = [(base * 1000 + i * 17 + k, n, lg) for i, lg in enumerate(TERM_LOGICS) for k in range(per)]
         camp.run(c14_case, params, chunksize=1)
         return camp.finish(replay_fn=None, min_evals=5000)
+    if prop == "C27":
+        nh, n, ns, per = (8, 1500, 16, 60) if tier == "quick" else (64, 20000, 64, 2500)
+        camp.rule = ("(a) h_intround (ASan+UBSan): mkIntDiv/mkMod on constant pairs - exhaustive on [-40,40]^2, boundary grid "
+                     "(+-2^31, 2^32, 2^53, 2^63, 2^64, 10^30 and neighbours) against both orders, random operands up to 29 digits - must "
+                     "equal the Euclidean quotient/remainder computed with GMP; (b) integer atoms (<=,<,>=,>,=) over 1-3 variables with "
+                     "coefficients [-6,6] + boundary coefficients and constants, and div/mod of such sums by constants: the printed result "
+                     "must be equivalent to the intended atom (z3, counter-models confirmed by cvc5); (c) executable (asan): integer windows "
+                     "lo </<= a*x </<= hi (also negated form, split coefficient, difference-logic form in QF_IDL) with widths around |a| and "
+                     "centres on the boundary grid: answer must equal the exact verdict computed with python integers and the value of x "
+                     "must lie in the window; distinct_nontrivial = distinct windows / non-trivial atoms validated")
+        camp.assumptions = ["GMP / python integers as the oracle for (a) and (c); z3 5.1 (+cvc5) for (b)", "grid + random sample, not all integers"]
+        camp.run(c27_harness_case, [(base * 1000 + i, n) for i in range(nh)], chunksize=1)
+        camp.run(c27_script_case, [(base * 7919 + i, per) for i in range(ns)], chunksize=1)
+        return camp.finish(replay_fn=c27_replay, min_evals=5000)
     if prop == "C28":
         per, n = (3, 12000) if tier == "quick" else (40, 60000)
         camp.rule = ("h_terms: every constructor call is repeated and must return the same identity; and/or/+/* are re-called "
